@@ -507,6 +507,7 @@ func (f *frame) hereEnv(st *State) *Env {
 	c := f.c
 	b := f.curBlock
 	return &Env{c: c, vars: f.ghostVars(), cur: st, old: c.entry, pkg: pkgOf(f.fn), guard: st.reach,
+		lookupAddr: f.allocAddr,
 		lookup: func(name string) (Val, bool) {
 			return f.withState(st, func() (Val, bool) { return f.lookupVarAt(name, b, f.curIdx) })
 		}}
@@ -755,6 +756,19 @@ func (f *frame) invoke(common *ssa.CallCommon, recv Val, args []Val, st *State, 
 func (f *frame) callUnknownFunc(fv Val, sig *types.Signature, args []Val, st *State, pos string) []Val {
 	c := f.c
 	c.oblige("nil", "func value", c.tags, st.reach, Not(Eq(fv.L[0], IntT(0))), pos, "call of nil function")
+	// a named function type may carry a callback contract: interface <Type>.call
+	if n, ok := fv.T.(*types.Named); ok {
+		key := n.Obj().Name() + ".call"
+		var fs *FuncSpec
+		if n.Obj().Pkg() != nil {
+			fs = c.eng.spec.Funcs[n.Obj().Pkg().Path()+"::iface:"+key]
+		}
+		if fs != nil {
+			c.assumed["callback-contract:"+key] = true
+			f.callOrdinal(key)
+			return f.applyContract(fs, nil, sig, append([]Val{fv}, args...), st, pos, key)
+		}
+	}
 	out := c.applyFuncTerm(fv, sig, args)
 	c.assumed["callback-pure:"+sig.String()] = true
 	return out
